@@ -105,6 +105,65 @@ def ob_break_faults(cx):
     cx.observe("log", [op for op, _ in fs.log])
 
 
+def ob_crash_retry(cx):
+    """The locking process STOPS before a symbolic one of its transport operations (no clean-up code runs).  Whatever
+    it leaves behind, a later locker - same user, host and pid, e.g. the same long-lived process or a reused pid - can
+    take the lock, at worst after breaking the lock the dead process held: the state is free or breakable, never stuck."""
+    L, fs, ld = env.make_env(cx)
+    if cx.choose("initially_held", 0, 1):
+        fs.held = fs.fresh_foreign()
+    what = cx.pick("interrupted", ["attempt_lock", "unlock"])
+    if what == "unlock":
+        cx.assume(fs.held is None)
+        ld.attempt_lock()
+    fs.crash_at = cx.int("crash_before_op", 0, cx.p("maxops"))
+    fs.opcount = 0
+    crashed = False
+    try:
+        if what == "attempt_lock":
+            ld.attempt_lock()
+        else:
+            ld.unlock()
+    except env.Crash:
+        crashed = True
+    except _errs(L):
+        pass
+    fs.crash_at = None
+    if not crashed:
+        cx.assume(False)                 # the operation finished before the crash point: covered by the other obligations
+    debris = sorted(fs.dirs)
+    ld2 = L.LockDir(fs, "lock")
+    ld2.get_config = lambda: {"locks.steal_dead": False}
+    steps = []
+    try:
+        try:
+            ld2.attempt_lock()
+            steps.append("acquired")
+        except L.LockContention:
+            holder = ld2.peek()
+            steps.append("contention")
+            if holder is None:
+                # held/ without readable holder information: the documented way out is force_break_corrupt
+                ld2.force_break_corrupt([])
+                steps.append("broke_corrupt")
+            else:
+                ld2.force_break(holder)
+                steps.append("broke")
+            ld2.attempt_lock()
+            steps.append("acquired")
+    except _errs(L) as e:
+        cx.require(False, "after a crash before operation %s of %s the lock can neither be taken nor broken (%s: %s; "
+                          "left behind: %r)" % (fs.log[-1][1] if fs.log else "?", what, type(e).__name__, steps, debris))
+    cx.require(ld2._lock_held is True and fs._is_ours(fs.held), "recovery did not end with the lock held by the new locker")
+    if "broke" in steps or "broke_corrupt" in steps:
+        cx.cover("broken_then_acquired")
+    else:
+        cx.cover("acquired_directly")
+    if debris:
+        cx.cover("debris")
+    cx.observe("steps", steps)
+
+
 def obligations(tier):
     q = tier == "quick"
     p = dict(interfere=1 if q else 2, faults=1 if q else 2)
@@ -117,4 +176,8 @@ def obligations(tier):
            bounds="one unlock with <= %(faults)d injected transport error(s) at any operation" % p),
         Ob("force_break_faults", ob_break_faults, [LD], p, to, 1, ["broken", "untouched"], setup=env.setup,
            bounds="force_break / force_break_corrupt with <= %(faults)d injected transport error(s)" % p),
+        Ob("crash_then_retry", ob_crash_retry, [LD], dict(maxops=8), to, 1, ["acquired_directly", "broken_then_acquired", "debris"],
+           setup=env.setup,
+           bounds="attempt_lock or unlock interrupted before transport operation 0..8 (symbolic), lock initially free or held "
+                  "by another process; then a new locker with the same identity recovers (attempt, break, attempt)"),
     ]
